@@ -634,15 +634,34 @@ func judge(in []byte, idx int, runs []ran, model map[string]string) {
 					}
 				}
 			}
-			// C09 oracle: error position = first byte the reference automaton cannot pass
-			if !r.o.OK && !specOK && !hasBOMPrefix(in) {
-				ref := model["run\tref\tsingle\t-\t-"]
-				rf := strings.Fields(ref)
-				if len(rf) >= 3 && rf[0] == "err" {
-					want := rf[1] + ":" + rf[2]
-					got := fmt.Sprintf("%d:%d", r.o.Line, r.o.Col)
-					if want != got {
-						desc["want_pos"] = want
+			// C09 oracle: error position = first byte the reference automaton cannot pass. Positions
+			// are relative to the JSON text, i.e. behind a byte order mark (formalisation choice: every
+			// front-end counts that way). An input that starts with 0xEF but not with a complete BOM
+			// followed by a byte is judged by the same rule over "optional BOM, then text": the first
+			// byte that deviates from EF BB BF, or just past the end when the input is a prefix of it.
+			if !r.o.OK && !specOK {
+				want := ""
+				efNoBOM := hasBOMPrefix(in) && !(len(in) > 3 && in[1] == 0xBB && in[2] == 0xBF)
+				if efNoBOM {
+					bom := []byte{0xEF, 0xBB, 0xBF}
+					k := 1
+					for k < len(in) && k < 3 && in[k] == bom[k] {
+						k++
+					}
+					want = fmt.Sprintf("1:%d", k+1)
+				} else {
+					ref := model["run\tref\tsingle\t-\t-"]
+					rf := strings.Fields(ref)
+					if len(rf) >= 3 && rf[0] == "err" {
+						want = rf[1] + ":" + rf[2]
+					}
+				}
+				got := fmt.Sprintf("%d:%d", r.o.Line, r.o.Col)
+				if want != "" && want != got {
+					desc["want_pos"] = want
+					if efNoBOM && lib.HasKnown(knownList, "C09-bom-position") {
+						knownFinding("C09", "C09-bom-position", "errpos-bom:"+r.v.Name, "input starts with 0xEF but not with a BOM: position "+got+" instead of "+want, in, desc)
+					} else {
 						finding("violation", "C09", "errpos:"+r.v.Name, "error position "+got+" is not the first offending byte "+want, in, desc)
 					}
 				}
